@@ -21,7 +21,7 @@ import operator
 import types
 from fractions import Fraction
 
-from ..core import Sub, fail, lit, close, enc
+from ..core import Siblings, Sub, fail, lit, close, enc
 
 PI = math.pi
 HALF_PI = math.pi / 2
@@ -990,4 +990,19 @@ class RandBetween(Sub):
         return fails
 
 
-SUBS = [Unary(), Coercion(), Binary(), Atan2(), Identities(), Pv(), Rand(), RandBetween()]
+NEEDS_ZYGOTE = True
+
+
+class ElementarySiblings(Siblings):
+    name = 'c16.siblings'
+    GROUPS = [
+        (['ABS({0})', 'SQRT({0})', 'EXP({0})', 'LN({0})', 'LOG({0})', 'LOG10({0})', 'SIN({0})', 'COS({0})', 'TAN({0})',
+          'COT({0})', 'SEC({0})', 'CSC({0})', 'ASIN({0})', 'ACOS({0})', 'ATAN({0})', 'ACOT({0})', 'SINH({0})', 'COSH({0})',
+          'TANH({0})', 'COTH({0})', 'ASINH({0})', 'ACOSH({0})', 'ATANH({0})', 'ACOTH({0})', 'RADIANS({0})', 'DEGREES({0})'],
+         [(0,), (0.5,), (1,), (2,), (-1,), (10,), ('0.5',), (True,), ('abc',)]),
+        (['POWER({0},{1})', 'LOG({0},{1})', 'ATAN2({0},{1})', 'ATAN2({1},{0})', 'PV({0},{1},1)', 'PV(0.1,{0},{1})'],
+         [(2, 3), (3, 2), (1, 1), (0, 0), (0, 1), (10, 10), (-1, 2), (0.5, 2)]),
+    ]
+
+
+SUBS = [Unary(), Coercion(), Binary(), Atan2(), Identities(), Pv(), Rand(), RandBetween(), ElementarySiblings()]
